@@ -71,6 +71,29 @@ fn main() {
         }
         return;
     }
+    if prop == "_TZSHAPE" {
+        // debug: `ohmc _TZSHAPE C02 quick` prints the violation groups of the time-zone family alone
+        let which = match args[2].as_str() {
+            "C02" => props::tzshape::Which::C02,
+            "C03" => props::tzshape::Which::C03,
+            _ => props::tzshape::Which::C08,
+        };
+        let mut acc = report::Acc::new();
+        let t0 = Instant::now();
+        let cov = props::tzshape::run(which, args.get(3).map(|s| s != "thorough").unwrap_or(true), &mut acc);
+        println!("{cov}");
+        for (k, n) in &acc.counters {
+            println!("  {k} = {n}");
+        }
+        for ((kind, feats), g) in &acc.groups {
+            println!("GROUP {kind} {feats:?} count={}", g.count);
+            for ex in g.examples.iter().take(2) {
+                println!("    {}", ex.detail);
+            }
+        }
+        println!("wall {:.1}s", t0.elapsed().as_secs_f64());
+        return;
+    }
     if prop == "_RT" {
         // debug: parse / print / reparse each argument, `ohmc _RT 'Jan open, easter closed'`
         for a in &args[2..] {
